@@ -154,6 +154,10 @@ func (p *Program) WriterProtocol(fn *ssa.Function, file string) (proto string, d
 		if len(writes) == 0 {
 			return "create-empty", detail
 		}
+		if len(writes) > 1 {
+			// a crash between the writes exposes a partial (non-empty) file
+			return "create-then-write-n", detail
+		}
 		return "create-then-write", detail
 	case len(opens) == 1 && (opens[0].Kind == "writefile" || opens[0].Kind == "open-trunc"):
 		return "truncate-then-write", detail
